@@ -303,13 +303,17 @@ def check(model: Model, report: Report) -> None:
     report.rule("R13.1", "every raise statement in compile/evaluation code raises a JSONPathError subclass (or re-raises)")
     report.rule("R13.2", "no exception other than a JSONPathError escapes any interpreted cell: token shapes, symbolic lexemes at every consumption site, every lexer state, string decoding, every selector/segment/visitor on every kind of value, every expression evaluator and conversion, built-in functions over all argument kinds, node rendering")
     report.rule("R13.3", "str(error) and Token.position() cannot raise, with or without a token")
+    report.rule("R13.4", "the scan terminates: every step of every lexer state stops, provably consumes at least one character, or belongs to no cycle of zero-progress steps that is consistent about the character at the pointer")
     report.assumptions += ["A1: effect sets of host operations (which exception classes int/float/chr/len/next/subscripts/slice.indices/<,==/regex may raise on which operand kinds)"]
     report.not_decided += [
-        "termination of the lexer/parser loops (argued: every state consumes input or stops)",
+        "termination of the parser loops and of the string decoder (the token grid and the decoder cells would not converge on a loop that spins, which ends in exit 2, but that is not a proof)",
         "interpreter RecursionError / MemoryError on pathological sizes",
         "index bookkeeping across iterations of scanner loops (each iteration is analysed from an arbitrary in-range position)",
     ]
     check_raise_classes(model, report, "R13.1")
+    from . import _lexstates
+
+    _lexstates.check_progress(model, report, "R13.4")
     counts = report_escapes(model, report, "R13.2", "can escape instead of a JSONPathError")
     report.extra["cell_sections"] = counts
     report.extra["explanation"] = "C13: raise-class discipline over the AST + a monitor over all abstract-interpretation cells of the other properties."
